@@ -174,3 +174,42 @@ def rule_mrv_attributes(ck, repo, R):
     ck.decide(core <= wattrs, R, 'writer-attributes', sorted(wattrs), f'MRV writer no longer emits {sorted(core - wattrs)}', file=m.relpath)
     ck.decide(core <= rattrs, R, 'reader-attributes', sorted(rattrs), f'MRV reader no longer consults {sorted(core - rattrs)}', file=m.relpath)
     ck.decide(re.search(r'\* 2', s) is not None and re.search(r'/ 2', s) is not None, R, 'coordinate-scaling', None, 'MRV coordinate scaling (x 2 on write, / 2 on read) is no longer present on both sides', file=m.relpath)
+
+
+def rule_rxn_drop_bookkeeping(ck, repo, R):
+    ck.rule(R, 'the RXN parsers cut the molecule list into roles by running counts; whenever a component is dropped (an exception of its mol parser is swallowed: empty '
+               'molecule, or any ValueError under ignore=True) the boundaries of the current and all later roles are decremented on that very path. A handler that '
+               'logs and continues without the decrement shifts the first molecule of the next role into the previous one')
+
+    def is_dec(st):
+        return isinstance(st, ast.AugAssign) and isinstance(st.op, ast.Sub) and isinstance(st.target, ast.Name) and st.target.id.endswith('_count')
+
+    def outcome(stmts):
+        """set of ways the statement list can end: 'dec' (a decrement was executed), 'raise', 'leave' (continue / break / return without decrement),
+        'fall' (falls off the end without decrement)"""
+        for i, st in enumerate(stmts):
+            if is_dec(st):
+                return {'dec'}
+            if isinstance(st, ast.Raise):
+                return {'raise'}
+            if isinstance(st, (ast.Continue, ast.Break, ast.Return)):
+                return {'leave'}
+            if isinstance(st, ast.If):
+                ends = outcome(st.body) | (outcome(st.orelse) if st.orelse else {'fall'})
+                if 'fall' in ends:
+                    ends = (ends - {'fall'}) | outcome(stmts[i + 1:])
+                return ends
+        return {'fall'}
+    n = 0
+    for fq in ('chython.files.mdl.rxn:parse_rxn_v2000', 'chython.files.mdl.erxn:parse_rxn_v3000'):
+        f = repo.func(fq)
+        ck.require(f is not None, f'{fq} not found')
+        tries = [t for t in ast.walk(f.node) if isinstance(t, ast.Try) and any(isinstance(c, ast.Call) and src(c.func) == 'molecules.append' for s_ in t.body for c in ast.walk(s_))]
+        ck.require(len(tries) == 1, f'{fq}: try around molecules.append(parse_mol...) not found')
+        for h in tries[0].handlers:
+            n += 1
+            o = outcome(h.body)
+            ck.decide(o <= {'dec', 'raise'}, R, f'{f.qualname}:except {src(h.type) if h.type else ""}', sorted(o),
+                      f'{f.qualname}: `except {src(h.type) if h.type else ""}` can complete without decrementing the role counts: the dropped component still '
+                      f'occupies a slot of its role and the next role loses its first molecule', file=f.file, line=h.lineno, func=f.qualname)
+    ck.floor(R, 2)
